@@ -350,6 +350,8 @@ func runC06(c *Ctx) {
 		ruleSumOverflow(c, p, "C06.sum-overflow")
 		ruleZstdCap(c, p, "C06.zstd-cap")
 		ruleDataIndex(c, p, "C06.data-index")
+		ruleCountCases(c, p, "C06.count")
+		ruleResliceUp(c, p, "C06.reslice-up")
 		ruleWireSlice(c, p, "C06.wire-slice")
 		c.R.Rule("C06.errors", "E6 (as C07.errors): every read error on the decode side reaches only failure exits - a swallowed error turns hostile input into a silently wrong (internally inconsistent) result")
 		nE := runErrDisc(c, p, p.Funcs(), errDiscOpts{Rule: "C06.errors", Class: readerClass(p), Exempt: isDoReceiverPacket})
@@ -2503,10 +2505,34 @@ func ruleWireSlice(c *Ctx, p *core.Program, rule string) {
 	c.R.Rule(rule, "in package compress, a slice expression whose bound is computed from a header field read off the wire (binary.LittleEndian.UintN) slices a buffer that the same function sized from that very field (the stores to the buffer's field append make([]byte, n) with n derived from the same read), or is reachable only through a comparison of the bound with len/cap of the buffer: the data size and the raw size are two independent header fields, slicing the raw buffer by the data size panics for a frame whose data size exceeds its payload")
 	cfg := p.Cfg.Name
 	n := 0
+	// a result of a helper of the package that is computed from a header field read inside the helper
+	// (rawSize, dataSize, err := r.headerSizes()) is a root like the read itself
+	helperRoot := func(x ssa.Value) bool {
+		ex, ok := x.(*ssa.Extract)
+		if !ok {
+			return false
+		}
+		cl, ok := ex.Tuple.(*ssa.Call)
+		if !ok {
+			return false
+		}
+		g := core.StaticFn(cl)
+		if g == nil || g.Blocks == nil || pkgOf(g) == nil || pkgOf(g).Path() != core.PkgCompress {
+			return false
+		}
+		for _, b := range g.Blocks {
+			if r, ok := b.Instrs[len(b.Instrs)-1].(*ssa.Return); ok && ex.Index < len(r.Results) {
+				if core.DependsOn(r.Results[ex.Index], isWireRead, false) {
+					return true
+				}
+			}
+		}
+		return false
+	}
 	roots := func(v ssa.Value) map[ssa.Value]bool {
 		out := map[ssa.Value]bool{}
 		core.DependsOn(v, func(x ssa.Value) bool {
-			if isWireRead(x) {
+			if isWireRead(x) || helperRoot(x) {
 				out[x] = true
 			}
 			return false
@@ -2628,4 +2654,162 @@ func ruleWireSlice(c *Ctx, p *core.Program, rule string) {
 	}
 	c.R.Count("slice bounds from frame header fields["+cfg+"]", n)
 	c.R.Floor(rule, cfg, n, 1)
+}
+
+// ---- C06.reslice-up: a decoder does not extend a column's slice to the announced row count by re-slicing
+type resliceSite struct {
+	at   *ssa.Slice
+	path string
+	ok   bool
+	w    core.Witness
+}
+
+// resliceUpSites: slice expressions of fn (a DecodeColumn) over the receiver's own storage whose upper bound
+// derives from the row-count parameter, with the verdict "capacity established on every path".
+func resliceUpSites(fn *ssa.Function) []resliceSite {
+	var out []resliceSite
+	if fn.Blocks == nil || len(fn.Params) < 3 {
+		return nil
+	}
+	rows := fn.Params[len(fn.Params)-1]
+	fromRows := func(v ssa.Value) bool {
+		return core.DependsOn(v, func(x ssa.Value) bool { return x == ssa.Value(rows) }, false)
+	}
+	for _, b := range fn.Blocks {
+		for _, in := range b.Instrs {
+			sl, ok := in.(*ssa.Slice)
+			if !ok || sl.High == nil || !fromRows(sl.High) {
+				continue
+			}
+			if _, isStr := sl.X.Type().Underlying().(*types.Basic); isStr {
+				continue
+			}
+			ap := accessPath(sl.X, 0)
+			if !strings.HasPrefix(ap, "recv") {
+				continue // a buffer returned by the reader, a local
+			}
+			// High bounded by len of the same storage (x[:min(...)] or an index below len) is not an extension
+			if core.DependsOn(sl.High, func(x ssa.Value) bool {
+				cl, ok := x.(*ssa.Call)
+				if !ok {
+					return false
+				}
+				bi, ok := cl.Call.Value.(*ssa.Builtin)
+				return ok && (bi.Name() == "len" || bi.Name() == "min")
+			}, false) && !fromRowsOnly(sl.High, rows) {
+				continue
+			}
+			// storage made in this function with exactly this bound
+			sameBound := func(v ssa.Value) bool { return stripConv(v) == stripConv(sl.High) }
+			madeHere := core.DependsOn(sl.X, func(x ssa.Value) bool {
+				y, ok := x.(*ssa.MakeSlice)
+				return ok && (sameBound(y.Len) || sameBound(y.Cap))
+			}, true)
+			isCap := func(v ssa.Value) bool {
+				cl, ok := stripConv(v).(*ssa.Call)
+				if !ok {
+					return false
+				}
+				bi, ok := cl.Call.Value.(*ssa.Builtin)
+				return ok && bi.Name() == "cap" && accessPath(cl.Call.Args[0], 0) == ap
+			}
+			// edges on which cap(storage) >= a value computed from the row count
+			var enough []core.Edge
+			for _, bb := range fn.Blocks {
+				ifi, ok := bb.Instrs[len(bb.Instrs)-1].(*ssa.If)
+				if !ok {
+					continue
+				}
+				bo, ok := ifi.Cond.(*ssa.BinOp)
+				if !ok {
+					continue
+				}
+				switch {
+				case isCap(bo.X) && fromRows(bo.Y):
+					switch bo.Op {
+					case token.LSS:
+						enough = append(enough, core.Edge{B: bb, Succ: 1})
+					case token.GEQ:
+						enough = append(enough, core.Edge{B: bb, Succ: 0})
+					}
+				case isCap(bo.Y) && fromRows(bo.X):
+					switch bo.Op {
+					case token.GTR:
+						enough = append(enough, core.Edge{B: bb, Succ: 1})
+					case token.LEQ:
+						enough = append(enough, core.Edge{B: bb, Succ: 0})
+					}
+				}
+			}
+			// or a store of freshly made storage of exactly this size into the same place
+			remade := func(x ssa.Instruction) bool {
+				st, ok := x.(*ssa.Store)
+				if !ok || accessPath(st.Addr, 0) != ap && "*"+accessPath(st.Addr, 0) != ap {
+					return false
+				}
+				return core.DependsOn(st.Val, func(y ssa.Value) bool {
+					mk, ok := y.(*ssa.MakeSlice)
+					return ok && (sameBound(mk.Len) || sameBound(mk.Cap))
+				}, true) && !core.DependsOn(st.Val, func(y ssa.Value) bool {
+					// append(x, make(k)...) keeps x's length: only append to an emptied or nil base counts
+					cl, ok := y.(*ssa.Call)
+					if !ok {
+						return false
+					}
+					bi, ok := cl.Call.Value.(*ssa.Builtin)
+					if !ok || bi.Name() != "append" {
+						return false
+					}
+					_, isSl := cl.Call.Args[0].(*ssa.Slice)
+					return !isSl && !core.IsNilConst(cl.Call.Args[0])
+				}, true)
+			}
+			w := core.ReachAvoiding(core.Entry(fn), func(x ssa.Instruction) bool { return x == ssa.Instruction(sl) }, remade, core.WithoutEdges(enough))
+			site := resliceSite{at: sl, path: ap, ok: madeHere || len(w) == 0}
+			if !site.ok {
+				site.w = w[0]
+			}
+			out = append(out, site)
+		}
+	}
+	return out
+}
+
+func ruleResliceUp(c *Ctx, p *core.Program, rule string) {
+	c.R.Rule(rule, "in the DecodeColumn methods of package proto, a slice expression over the column's own storage (a receiver field or the receiver itself) whose upper bound derives from the announced row count is reachable only through the edge of a comparison on which cap() of that storage is at least a value computed from the count, or behind a store of freshly made storage of exactly that size into the same place: growing by `x = x[:rows]` relies on spare capacity that a Reset-and-reuse history does not provide (capacity 4 after a 4-row block, 7 rows next: slice bounds out of range); no decoder re-slices upwards today, a fixture pair keeps the recogniser alive")
+	cfg := p.Cfg.Name
+	n, nf := 0, 0
+	for _, fn := range p.Funcs() {
+		if pkgOf(fn) == nil || pkgOf(fn).Path() != core.PkgProto || fn.Name() != "DecodeColumn" {
+			continue
+		}
+		if nm := core.RecvNamed2(fn); nm != nil && strings.HasPrefix(nm.Obj().Name(), "verifFixture") {
+			continue
+		}
+		nf++
+		for _, s := range resliceUpSites(fn) {
+			n++
+			key := core.FuncName(fn) + sprintf("/reslice#%d", n)
+			if s.ok {
+				c.R.Ok(rule, key, cfg, p.Pos(s.at.Pos()), "capacity for the announced count is established on every path (cap test or fresh make of that size)")
+			} else {
+				c.R.Bad(rule, key, cfg, p.Pos(s.at.Pos()), sprintf("%s is extended to a bound computed from the announced row count by re-slicing, and on some path neither a test cap(%s) >= bound was passed nor storage of that size made: a reused column with less spare capacity panics (slice bounds out of range)", s.path, s.path), p.TrailString(s.w)...)
+			}
+		}
+	}
+	c.R.Count("DecodeColumn methods examined for upward re-slices["+cfg+"]", nf)
+	c.R.Floor(rule, cfg, nf, 40)
+}
+
+// fromRowsOnly: v depends on rows and on no len() call.
+func fromRowsOnly(v ssa.Value, rows ssa.Value) bool {
+	hasLen := core.DependsOn(v, func(x ssa.Value) bool {
+		cl, ok := x.(*ssa.Call)
+		if !ok {
+			return false
+		}
+		bi, ok := cl.Call.Value.(*ssa.Builtin)
+		return ok && bi.Name() == "len"
+	}, false)
+	return !hasLen
 }
